@@ -3,7 +3,7 @@ CONSTANTS D = 2
           NPre = 4
           NE = 4
           EnSet <- E12
-          TMax = 8
+          TMax = 12
           Dirs = {"ltr", "rel"}
           Caps = {1, 2, 3, 99}
           Canon = TRUE
